@@ -21,7 +21,8 @@ class Prop(BaseProp):
             "enumerated lists, literal blocks, nested directives, definition lists, block quotes, inline markup; each "
             "body first validated stand-alone) on every entry kind, classes nested to depth 3; output parsed by "
             "docutils 0.23 with stub directives; monitor = no system message of level>=3, top level = title + module "
-            "+ entries only, every doc-line id and member inside the entry of its own item. Distinct = module shape "
+            "+ entries only, every doc-line id and member inside the entry of its own item, every inner-class reference in the "
+            "list of the class that declares it. Distinct = module shape "
             "+ construct sequence; non-trivial = >=2 entries and >=1 non-paragraph construct")
     ASSUMPTIONS = ["docutils 0.23 with stub directives stands in for Sphinx", "argument values without line breaks",
                    "level-2 warnings are tolerated (the repository's own goldens contain some)",
@@ -143,6 +144,26 @@ class Prop(BaseProp):
                     has = "value" in ns[0]["opts"]
                     if has != (m.default is not None):
                         res.violate("attr-value-option", f"{m.name}: :value: present={has}, default={m.default!r}", wit)
+        # inner classes are members too: the reference to an inner class is listed in the directive of the class that
+        # declares it (nesting depth 3: not in the outermost one) and nowhere else
+        import re as _re
+        from .. import rstscan, oracle
+        cls_nodes = {n.uid(): n for n in rstscan.Page(rst).entries() if rstscan.kind_of(n) == "class"}
+        for e in exp:
+            if e.kind != "class" or e.uid not in cls_nodes:
+                continue
+            caps, _ = oracle.class_sections(cls_nodes[e.uid])
+            got_inner = []
+            for b in caps.get("Inner classes", []):
+                if isinstance(b, str):
+                    mm = _re.fullmatch(r"\* :class:`(.*)`", b)
+                    got_inner.append(mm.group(1) if mm else b)
+            res.count("inner_class_lists_checked")
+            if e.inner:
+                res.count("inner_class_references_expected", len(e.inner))
+            if got_inner != list(e.inner):
+                res.violate("inner-class-reference-outside-declaring-class",
+                            f"class {e.name} lists inner classes {got_inner}, it declares {list(e.inner)}", wit)
         # fields CMinx appends: a method's :param p:/:type p: fields sit directly in that method's entry; a variable's
         # 'type' field sits directly in its own data entry
         fields = []
